@@ -8,7 +8,14 @@ import (
 	"bufio"
 	"bytes"
 	"context"
+	"crypto/ecdsa"
+	"crypto/elliptic"
+	"crypto/rand"
+	"crypto/tls"
+	"crypto/x509"
+	"crypto/x509/pkix"
 	"errors"
+	"math/big"
 	"fmt"
 	"io"
 	"net"
@@ -20,6 +27,7 @@ import (
 	"sync/atomic"
 	"time"
 
+	"github.com/prometheus/client_golang/prometheus"
 	"github.com/saucelabs/forwarder"
 	"github.com/saucelabs/forwarder/log"
 )
@@ -289,6 +297,32 @@ func NewOrigin() (*Origin, error) {
 	return o, nil
 }
 
+// NewTLSOrigin is NewOrigin behind TLS with a fresh self-signed certificate for 127.0.0.1.
+func NewTLSOrigin() (*Origin, error) {
+	key, err := ecdsa.GenerateKey(elliptic.P256(), rand.Reader)
+	if err != nil {
+		return nil, err
+	}
+	tmpl := &x509.Certificate{
+		SerialNumber: big.NewInt(1), Subject: pkix.Name{CommonName: "g01rig origin"},
+		NotBefore: time.Now().Add(-time.Hour), NotAfter: time.Now().Add(24 * time.Hour),
+		KeyUsage: x509.KeyUsageDigitalSignature, ExtKeyUsage: []x509.ExtKeyUsage{x509.ExtKeyUsageServerAuth},
+		IPAddresses: []net.IP{net.ParseIP("127.0.0.1")}, DNSNames: []string{"localhost"},
+	}
+	der, err := x509.CreateCertificate(rand.Reader, tmpl, tmpl, &key.PublicKey, key)
+	if err != nil {
+		return nil, err
+	}
+	cert := tls.Certificate{Certificate: [][]byte{der}, PrivateKey: key}
+	l, err := net.Listen("tcp", "127.0.0.1:0")
+	if err != nil {
+		return nil, err
+	}
+	o := &Origin{L: tls.NewListener(l, &tls.Config{Certificates: []tls.Certificate{cert}, NextProtos: []string{"http/1.1"}})}
+	go o.serve()
+	return o, nil
+}
+
 func (o *Origin) Addr() string { return o.L.Addr().String() }
 func (o *Origin) Close()       { o.L.Close() }
 
@@ -408,6 +442,9 @@ type ProxyOpts struct {
 	// ConnectHeaderCallback sets Transport.GetProxyConnectHeader the way command/run
 	// configureTransportProxy always does (a callback returning the configured, here empty, header).
 	ConnectHeaderCallback bool
+	// MITM enables interception of CONNECT tunnels with a self-signed CA (as --mitm does); the
+	// transport then accepts any origin certificate (the scripted TLS origin is self-signed).
+	MITM bool
 }
 
 func StartProxyOpts(name string, opts ProxyOpts) (*Proxy, error) {
@@ -439,6 +476,12 @@ func StartProxyOpts(name string, opts ProxyOpts) (*Proxy, error) {
 		tweak(cfg)
 	}
 	tcfg := forwarder.DefaultHTTPTransportConfig()
+	if opts.MITM {
+		cfg.MITM = forwarder.DefaultMITMConfig()
+		cfg.PromRegistry = prometheus.NewRegistry()
+		cfg.PromNamespace = "g01rig"
+		tcfg.TLSClientConfig.Insecure = true
+	}
 	rt, err := forwarder.NewHTTPTransport(tcfg)
 	if err != nil {
 		return nil, err
@@ -484,6 +527,31 @@ func Dial(addr string) (*Client, error) {
 		return nil, err
 	}
 	return &Client{C: c, BR: bufio.NewReaderSize(c, 64<<10)}, nil
+}
+
+// DialMITM opens a CONNECT tunnel to target through the proxy and starts TLS inside it
+// (certificate not verified: C07 checks what the proxy presents).
+func DialMITM(proxyAddr, target string) (*Client, error) {
+	c, err := Dial(proxyAddr)
+	if err != nil {
+		return nil, err
+	}
+	res, err := c.Do(BuildRequest("CONNECT", target, "HTTP/1.1", []Field{{"Host", target}}, nil), "CONNECT")
+	if err != nil {
+		c.Close()
+		return nil, err
+	}
+	if res.Status != 200 {
+		c.Close()
+		return nil, fmt.Errorf("CONNECT answered %d", res.Status)
+	}
+	tc := tls.Client(c.C, &tls.Config{InsecureSkipVerify: true, ServerName: "localhost", NextProtos: []string{"http/1.1"}})
+	c.C.SetDeadline(time.Now().Add(20 * time.Second))
+	if err := tc.Handshake(); err != nil {
+		c.Close()
+		return nil, err
+	}
+	return &Client{C: tc, BR: bufio.NewReaderSize(tc, 64<<10)}, nil
 }
 
 func (c *Client) Close() { c.C.Close() }
